@@ -23,6 +23,7 @@ def num(x):
 
 
 def close(a, b):
+    if a is None or b is None: return False
     a, b = float(a), float(b)
     if math.isnan(a) or math.isnan(b): return False
     return abs(a - b) <= ATOL + RTOL * max(abs(a), abs(b))
@@ -47,7 +48,7 @@ def replay(d):
         if not ok: bad.append((label, what))
         return ok
     def P(label, got, want, where):
-        if not close(got, want): bad.append((label, '%s: got %r, expected %r' % (where, float(got), float(want))))
+        if not close(got, want): bad.append((label, '%s: got %r, expected %r' % (where, got if got is None else float(got), want if want is None else float(want))))
     layer_snap = 0.0 if d['snap'] == 'off' else 0.1
     try:
         geo2, bm = grid.rectgeo(atmos_type=atm, convention=d['convention2'], layer_snap=layer_snap)
